@@ -77,7 +77,9 @@ theorem chunkBody_props (r : RState) (kind : ChunkKind) (hp : Option Props) (seq
           (r.inp.size - (r.pos + hlenOf kind)))) with
     | none =>
       refine ⟨?_, by simp only; omega, rfl⟩
-      split_ifs <;> simp [FE]
+      rcases initStatus_cases (bytesToList r.inp (r.pos + hlenOf kind) (r.pos + hlenOf kind +
+        min (Lzma2.get r.inp (r.pos + 3) * 256 + Lzma2.get r.inp (r.pos + 4) + 1)
+          (r.inp.size - (r.pos + hlenOf kind)))) with h | h <;> rw [h] <;> simp [FE]
     | some rd =>
       simp only
       generalize hR : decSegment p _ _ false _ _ = R
@@ -157,7 +159,7 @@ theorem gtr_pos {rb : RState} (hg : GTr B rb) (hK : KB B) : (crState (readChunk 
 
 theorem C2.pos_le {r : R2} {D : ByteArray} (hc : C2 cap inp off B r D) (hK : KB B) : r.srcPos ≤ B.1.pos := by
   rcases hc with hc | hc
-  · obtain ⟨hcur, hinp, hdec, p, usize, startB, R, hg, hKB⟩ := hc
+  · obtain ⟨hsrc, hcur, hinp, hdec, p, usize, startB, R, hg, hKB⟩ := hc
     obtain ⟨rb, seq', kind, csize, hp, body, n, k1, k2, k3, k4, k5, k6, k7, k8⟩ := hKB hK
     have hKR := kR_of_KB hK k1 k3
     have hpos := gtr_pos k1 hK
@@ -174,7 +176,7 @@ theorem C2.pos_le {r : R2} {D : ByteArray} (hc : C2 cap inp off B r D) (hK : KB 
     simp only [R2.srcPos, hcur, if_true]
     simp only [afterLz] at hpos
     omega
-  · obtain ⟨hcur, hinp, hue, h0, body, usize, hrel, hol, hdl, hcapH, hD, hb, hps, hus, huE, hKB⟩ := hc
+  · obtain ⟨hsrc, hcur, hinp, hue, h0, body, usize, hrel, hol, hdl, hcapH, hD, hb, hps, hus, huE, hKB⟩ := hc
     obtain ⟨rb, seq', kind, hg, hrc, hl⟩ := hKB hK
     have hpos := gtr_pos hg hK
     rw [hrc, uncOut_state] at hpos
